@@ -151,23 +151,24 @@ theorem andThen_pure (a : Adapter) (f : Adapter → Res) : (⟨[], some a⟩ : R
 
 /-- Core of "streaming = batch": running the loop on `buffer ++ b` is running it on `buffer`
 (not at end of stream) and then on what is left with `b` appended - unless the second step would
-be an END_STREAM with nothing appended (that case is the empty end-of-stream frame). The bound is
-the exact domain on which the code's `uint32(a.buffer.Len())` is the buffer length
-(`loop_app_bound_sharp` below: false at 2^32). -/
+be an END_STREAM with nothing appended (that case is the empty end-of-stream frame). The bound
+(fewer than 2^32 + 5 stream bytes pending, the 5 being a prefix already consumed or still to be
+consumed) is the domain on which the code's `uint32(a.buffer.Len())` is the buffer length at every
+comparison; `Props.C11.streaming_eq_batch_bound_sharp`: false with one byte more. -/
 theorem loop_app (cd : Codec) (es : Bool) (a : Adapter) (b : Bytes) (h : b ≠ [] ∨ es = false)
-    (hb : a.buf.length + b.length < 4294967296) :
+    (hb : a.pending + b.length < 4294967301) :
     loop cd es (a.app b) = (loop cd false a).andThen (fun a' => loop cd es (a'.app b)) := by
   fun_induction loop cd false a with
   | case1 a hr hlt => simp [Res.andThen]
   | case2 a hr hlt hd =>
-    have hlen : a.buf.length < 4294967296 := by omega
+    have hlen : a.buf.length < 4294967296 := by simp [Adapter.pending, hr] at hb; omega
     have hle : a.length ≤ a.buf.length := by rw [u32_of_lt hlen] at hlt; omega
     rw [loop_reading_err cd es (a.app b) (by simpa [Adapter.app] using hr) (by simp [Adapter.app]; omega)
-      (by simp [Adapter.app]; omega)
+      (by simp [Adapter.pending, hr] at hb; simp [Adapter.app]; omega)
       (by simpa [Adapter.app, List.take_append_of_le_length hle] using hd)]
     simp [Res.andThen]
   | case3 a hr hlt d hd a2 c he =>
-    have hlen : a.buf.length < 4294967296 := by omega
+    have hlen : a.buf.length < 4294967296 := by simp [Adapter.pending, hr] at hb; omega
     have hle : a.length ≤ a.buf.length := by rw [u32_of_lt hlen] at hlt; omega
     have he' : a.buf.drop a.length = [] := by simpa [a2] using he
     have ha2 : a2 = a.afterMsg := rfl
@@ -183,22 +184,23 @@ theorem loop_app (cd : Codec) (es : Bool) (a : Adapter) (b : Bytes) (h : b ≠ [
       simp
     | cons x xs =>
       rw [loop_reading_more cd es (a.app (x :: xs)) (by simpa [Adapter.app] using hr) (by simp [Adapter.app]; omega)
-        (by simpa [Adapter.app] using hb) d
+        (by simp [Adapter.pending, hr] at hb; simp [Adapter.app]; omega) d
         (by simpa [Adapter.app, List.take_append_of_le_length hle] using hd)
         (by simp [Adapter.app, List.drop_append_of_le_length hle, he']), afterMsg_app a _ hle]
       simp [Res.cons, Adapter.app]
   | case4 a hr hlt d hd a2 c he ih =>
-    have hlen : a.buf.length < 4294967296 := by omega
+    have hlen : a.buf.length < 4294967296 := by simp [Adapter.pending, hr] at hb; omega
     have hle : a.length ≤ a.buf.length := by rw [u32_of_lt hlen] at hlt; omega
     have he' : a.buf.drop a.length ≠ [] := by simpa [a2] using he
     have ha2 : a2 = a.afterMsg := rfl
     have hc : c = ⟨a.compressed, d, false⟩ := by simp [c]
     rw [ha2] at ih ⊢
-    have hb2 : a.afterMsg.buf.length + b.length < 4294967296 := by
-      simp [Adapter.afterMsg, List.length_drop]; omega
+    have hb2 : a.afterMsg.pending + b.length < 4294967301 := by
+      simp [Adapter.pending, hr] at hb
+      simp [Adapter.pending, Adapter.afterMsg, List.length_drop]; omega
     rw [hc, cons_andThen, ← ih hb2,
       loop_reading_more cd es (a.app b) (by simpa [Adapter.app] using hr) (by simp [Adapter.app]; omega)
-        (by simpa [Adapter.app] using hb) d
+        (by simp [Adapter.pending, hr] at hb; simp [Adapter.app]; omega) d
         (by simpa [Adapter.app, List.take_append_of_le_length hle] using hd)
         (by simp [Adapter.app, List.drop_append_of_le_length hle, he']), afterMsg_app a _ hle]
     simp [Adapter.app]
@@ -241,40 +243,48 @@ theorem loop_app (cd : Codec) (es : Bool) (a : Adapter) (b : Bytes) (h : b ≠ [
         simp only [Adapter.app]
         rw [List.drop_append_of_le_length (by omega), be32_append _ _ (by simp; omega)]
         exact h0
-    have hb1 : a.afterPrefix.buf.length + b.length < 4294967296 := by
-      simp [Adapter.afterPrefix, List.length_drop]; omega
+    have hb1 : a.afterPrefix.pending + b.length < 4294967301 := by
+      simp [Adapter.pending, hr'] at hb
+      simp [Adapter.pending, Adapter.afterPrefix, List.length_drop]; omega
     rw [loop_meta_go cd es (a.app b) (by simpa [Adapter.app] using hr') (by simp [Adapter.app]; omega) hgo,
       afterPrefix_app a _ hle, ← ha1, ih (by rw [ha1]; exact hb1), hpre]
     simp only [List.nil_append, r, res_eta]
 
 /-! ### DATA frames: streaming = batch -/
 
-/-- the loop only consumes: the buffer it leaves is no longer than the one it was given -/
-theorem loop_buf_le (cd : Codec) (es : Bool) (a a' : Adapter) (h : (loop cd es a).next = some a') :
-    a'.buf.length ≤ a.buf.length := by
+/-- the loop only consumes: what is pending afterwards is no more than what was pending -/
+theorem loop_pending_le (cd : Codec) (es : Bool) (a a' : Adapter) (h : (loop cd es a).next = some a') :
+    a'.pending ≤ a.pending := by
   fun_induction loop cd es a with
   | case1 a hr hlt => simp at h; subst h; exact Nat.le_refl _
   | case2 a hr hlt hd => simp at h
-  | case3 a hr hlt d hd a2 c he => simp at h; subst h; simp [a2, List.length_drop]
+  | case3 a hr hlt d hd a2 c he =>
+    simp at h; subst h; simp [a2, Adapter.pending, hr, List.length_drop]; omega
   | case4 a hr hlt d hd a2 c he ih =>
     have := ih (by simpa [Res.cons] using h)
-    simp [a2, List.length_drop] at this; omega
+    simp [a2, Adapter.pending, hr, List.length_drop] at this ⊢; omega
   | case5 a hr pre hlt => simp at h; subst h; exact Nat.le_refl _
-  | case6 a hr pre hlt a1 he => simp at h; subst h; simp [a1, List.length_drop]
+  | case6 a hr pre hlt a1 he =>
+    have hr' : a.reading = false := by simpa using hr
+    simp at h; subst h; simp [a1, Adapter.pending, hr', List.length_drop]; omega
   | case7 a hr pre hlt a1 he r ih =>
+    have hr' : a.reading = false := by simpa using hr
     have := ih (by simpa [r] using h)
-    simp [a1, List.length_drop] at this; omega
+    simp [a1, Adapter.pending, hr', List.length_drop] at this ⊢; omega
 
-theorem data_buf_le (cd : Codec) (es : Bool) (a a' : Adapter) (d : Bytes) (h : (data cd a d es).next = some a') :
-    a'.buf.length ≤ a.buf.length + d.length := by
-  have := loop_buf_le cd es (a.app d) a' h
-  simpa [Adapter.app] using this
+theorem app_pending (a : Adapter) (d : Bytes) : (a.app d).pending = a.pending + d.length := by
+  cases hr : a.reading <;> simp [Adapter.app, Adapter.pending, hr] <;> omega
+
+theorem data_pending_le (cd : Codec) (es : Bool) (a a' : Adapter) (d : Bytes) (h : (data cd a d es).next = some a') :
+    a'.pending ≤ a.pending + d.length := by
+  have := loop_pending_le cd es (a.app d) a' h
+  rwa [app_pending] at this
 
 theorem data_append (cd : Codec) (a : Adapter) (x y : Bytes) (es : Bool) (h : y ≠ [] ∨ es = false)
-    (hb : a.buf.length + x.length + y.length < 4294967296) :
+    (hb : a.pending + x.length + y.length < 4294967301) :
     data cd a (x ++ y) es = (data cd a x false).andThen (fun a' => data cd a' y es) := by
   unfold data
-  rw [← app_app, loop_app cd es (a.app x) y h (by simpa [Adapter.app] using hb)]
+  rw [← app_app, loop_app cd es (a.app x) y h (by rw [app_pending]; exact hb)]
 
 theorem flatten_ne_nil_of_getLast (fs : List Bytes) (h : fs ≠ []) (hl : fs.getLast? ≠ some []) :
     fs.flatten ≠ [] := by
@@ -291,7 +301,7 @@ theorem flatten_ne_nil_of_getLast (fs : List Bytes) (h : fs ≠ []) (hl : fs.get
 
 theorem runFrames_eq_data (cd : Codec) (a : Adapter) (fs : List Bytes) (es : Bool) (hne : fs ≠ [])
     (hl : es = false ∨ fs.getLast? ≠ some [])
-    (hb : a.buf.length + fs.flatten.length < 4294967296) :
+    (hb : a.pending + fs.flatten.length < 4294967301) :
     runFrames cd a fs es = data cd a fs.flatten es := by
   induction fs generalizing a with
   | nil => exact absurd rfl hne
@@ -308,14 +318,14 @@ theorem runFrames_eq_data (cd : Codec) (a : Adapter) (fs : List Bytes) (es : Boo
         · exact Or.inr h
         · exact Or.inl (flatten_ne_nil_of_getLast _ (by simp) h)
       have e : (f :: g :: gs).flatten = f ++ (g :: gs).flatten := by simp
-      have hb' : a.buf.length + f.length + (g :: gs).flatten.length < 4294967296 := by
+      have hb' : a.pending + f.length + (g :: gs).flatten.length < 4294967301 := by
         rw [e, List.length_append] at hb; omega
       rw [e, data_append cd a f _ es hfl hb']
       simp only [runFrames]
       cases hn : (data cd a f false).next with
       | none => simp [Res.andThen, hn]
       | some a1 =>
-        have h1 := data_buf_le cd false a a1 f hn
+        have h1 := data_pending_le cd false a a1 f hn
         simp only [Res.andThen, hn]
         rw [ih a1 (by simp) hl' (by omega)]
 
@@ -349,7 +359,7 @@ theorem stream_cons (m : GMsg) (ms : List GMsg) : stream (m :: ms) = m.frame ++ 
 /-- one message at the head of the buffer of an adapter that is between messages -/
 theorem loop_frame (cd : Codec) (es : Bool) (a : Adapter) (m : GMsg) (rest : Bytes)
     (hr : a.reading = false) (hb : a.buf = m.frame ++ rest) (hok : m.ok cd a.enc)
-    (hbd : a.buf.length < 4294967296) :
+    (hbd : a.buf.length < 4294967301) :
     loop cd es a =
       if rest = [] then ⟨[⟨m.compressed, m.plain, es⟩], some (a.afterDelivery m [])⟩
       else Res.cons ⟨m.compressed, m.plain, false⟩ (loop cd es (a.afterDelivery m rest)) := by
@@ -390,7 +400,7 @@ theorem afterDelivery_app (a : Adapter) (m : GMsg) (rest : Bytes) :
 
 /-- A whole stream in one DATA call: exactly the messages, end-of-stream on the last only. -/
 theorem data_stream (cd : Codec) (es : Bool) (ms : List GMsg) (hne : ms ≠ []) (a : Adapter)
-    (ha : a.atRest) (hok : ∀ m ∈ ms, m.ok cd a.enc) (hlen : (stream ms).length < 4294967296) :
+    (ha : a.atRest) (hok : ∀ m ∈ ms, m.ok cd a.enc) (hlen : (stream ms).length < 4294967301) :
     ∃ a', data cd a (stream ms) es = ⟨expCalls ms es, some a'⟩ ∧ a'.atRest ∧ a'.enc = a.enc := by
   induction ms generalizing a with
   | nil => exact absurd rfl hne
@@ -438,7 +448,7 @@ theorem data_nil_true (cd : Codec) (a : Adapter) (ha : a.atRest) :
 
 /-- `data_stream` for any number of messages when the frame does not end the stream -/
 theorem data_stream_false (cd : Codec) (ms : List GMsg) (a : Adapter)
-    (ha : a.atRest) (hok : ∀ m ∈ ms, m.ok cd a.enc) (hlen : (stream ms).length < 4294967296) :
+    (ha : a.atRest) (hok : ∀ m ∈ ms, m.ok cd a.enc) (hlen : (stream ms).length < 4294967301) :
     ∃ a', data cd a (stream ms) false = ⟨expCalls ms false, some a'⟩ ∧ a'.atRest ∧ a'.enc = a.enc := by
   cases ms with
   | nil => exact ⟨a, by simpa [stream, expCalls] using data_nil_false cd a ha, ha, rfl⟩
